@@ -30,6 +30,11 @@ CLAIMED = {
          "For every traffic shape with <= 4 held messages every subset and permutation was delivered by hand through Sim::links, and random hold/release schedules (Sim-side and host-side calls by name/IP/regex, repeated cycles, UDP + TCP + connect probes, 2-4 hosts) were run: no held message (sent while held or listed by Sim::links at the hold) was received while held, each was received exactly once within 2 steps of its release or manual delivery and in send order per direction, links not held kept delivering, connects blocked across the hold and completed after it, and with a fixed latency the iterator listed exactly the model's in-flight set after every step.",
          "fail_rate 0; partitions not combined with holds; for host-side holds under ranged latency ambiguous messages are neither required nor forbidden; messages released by a host-side call may or may not still be listed at the end of that step.",
          "DESIGN.md §6 C08"),
+ "C02": ("exploration",
+         "bounded-exhaustive enumeration of every delivery order of k data segments + FIN through Sim::links plus property-based random connections, checked against a byte-FIFO model per direction",
+         "Every delivery order of up to k+1 held messages was executed for several capacities, reader plans and close modes, and random connections (ranged latencies that reorder segments, capacities from 1, three endpoint modes incl. peek, split and try_write, both directions, slow/late readers, hold/release, partitions, abortive closes, remote/same-host/loopback, v4/v6): every read and peek returned exactly the next bytes of the peer's accepted stream, EOF came only after the writer closed and all bytes were consumed, and on a healthy link with a graceful close all bytes and EOF arrived within a configuration-derived step budget.",
+         "Bounded liveness (budget >= 10x the worst generated schedule); under partitions/abortive closes only the prefix half is asserted.",
+         "DESIGN.md §6 C02"),
 }
 
 PENDING_REASON = "check not built yet in this round (planned, see DESIGN.md §6); not claimed until its check exists and has been shown silent on the unchanged tree"
